@@ -20,7 +20,7 @@ import copy
 
 from .model import Program
 
-VARIANTS = ("comps->loops", "loops->comps", "else-intro", "else-elim", "positive-if",
+VARIANTS = ("comps->loops", "loops->comps", "else-intro", "else-elim", "positive-if", "counter-loops",
             "comps->loops+else-elim", "loops->comps+else-elim", "comps->loops+else-intro", "loops->comps+else-intro")
 _CACHE: dict = {}
 CHANGED: dict = {}   # cache key -> modules whose source the normal form changes
@@ -97,7 +97,75 @@ class _FnRewriter:
             return self._else_elim(stmts)
         if k == "positive-if":
             return self._positive_if(stmts)
+        if k == "counter-loops":
+            return self._counter_loops(stmts)
         return stmts
+
+    @staticmethod
+    def _direct(body, kinds):
+        """statements of the given kinds in a loop body, not counting those of nested loops / functions"""
+        found = []
+        stack = list(body)
+        while stack:
+            n = stack.pop()
+            if isinstance(n, kinds):
+                found.append(n)
+            if isinstance(n, (ast.For, ast.While, ast.AsyncFor, ast.FunctionDef, ast.AsyncFunctionDef, ast.ClassDef, ast.Lambda)):
+                continue
+            stack.extend(ast.iter_child_nodes(n))
+        return found
+
+    @staticmethod
+    def _pure_operand(e) -> bool:
+        return all(isinstance(n, (ast.Name, ast.Attribute, ast.Subscript, ast.Slice, ast.Constant, ast.UnaryOp, ast.USub, ast.Load,
+                                  ast.Tuple, ast.List)) for n in ast.walk(e))
+
+    def _counter_loops(self, stmts):
+        """for i, x in enumerate(xs): B   ->  i = 0 ; for x in xs: B ; i += 1      (no `continue` directly in B, i not read afterwards)
+        for a, b in product(A, B): S   ->  for a in A: for b in B: S            (no `break` directly in S, A and B plain operands)"""
+        out = []
+        for st in stmts:
+            if isinstance(st, ast.For) and not st.orelse and isinstance(st.iter, ast.Call) and isinstance(st.iter.func, ast.Name) \
+                    and st.iter.func.id == "enumerate" and 1 <= len(st.iter.args) <= 2 and not isinstance(st.iter.args[0], ast.Starred) \
+                    and all(k.arg == "start" for k in st.iter.keywords) and isinstance(st.target, ast.Tuple) and len(st.target.elts) == 2 \
+                    and isinstance(st.target.elts[0], ast.Name) and not self._direct(st.body, (ast.Continue,)) \
+                    and self._only_here({st.target.elts[0].id}, st):
+                start = st.iter.args[1] if len(st.iter.args) == 2 else (st.iter.keywords[0].value if st.iter.keywords else ast.Constant(0))
+                i = st.target.elts[0].id
+                loop = ast.For(target=st.target.elts[1], iter=st.iter.args[0], orelse=[],
+                               body=st.body + [ast.AugAssign(target=ast.Name(i, ast.Store()), op=ast.Add(), value=ast.Constant(1))])
+                out.append(ast.copy_location(ast.Assign(targets=[ast.Name(i, ast.Store())], value=start), st))
+                st = ast.copy_location(loop, st)
+                self.changed = True
+            if isinstance(st, ast.For) and not st.orelse and isinstance(st.iter, ast.Call) and isinstance(st.iter.func, (ast.Name, ast.Attribute)) \
+                    and (getattr(st.iter.func, "id", None) == "product" or getattr(st.iter.func, "attr", None) == "product") \
+                    and len(st.iter.args) == 2 and not st.iter.keywords and isinstance(st.target, ast.Tuple) and len(st.target.elts) == 2 \
+                    and all(self._pure_operand(a_) for a_ in st.iter.args) and not self._direct(st.body, (ast.Break,)):
+                inner = ast.For(target=st.target.elts[1], iter=st.iter.args[1], body=st.body, orelse=[])
+                st = ast.copy_location(ast.For(target=st.target.elts[0], iter=st.iter.args[0], body=[ast.copy_location(inner, st)], orelse=[]), st)
+                self.changed = True
+            if isinstance(st, ast.For) and not st.orelse and isinstance(st.target, ast.Name) and isinstance(st.iter, (ast.Tuple, ast.List)) \
+                    and 1 <= len(st.iter.elts) <= 4 and all(isinstance(x, ast.Name) for x in st.iter.elts) \
+                    and not self._direct(st.body, (ast.Break, ast.Continue)) \
+                    and not any(isinstance(n, ast.Name) and n.id == st.target.id and isinstance(n.ctx, (ast.Store, ast.Del))
+                                for b_ in st.body for n in ast.walk(b_)) \
+                    and self._only_here({st.target.id}, st):
+                # for v in (a, b): BODY   ->   BODY[a/v] ; BODY[b/v]      (v is only an alias of a, then of b)
+                v = st.target.id
+
+                class _Sub(ast.NodeTransformer):
+                    def __init__(self, to):
+                        self.to = to
+
+                    def visit_Name(self, n):
+                        return ast.copy_location(ast.Name(self.to, n.ctx), n) if n.id == v else n
+                for item in st.iter.elts:
+                    for b_ in st.body:
+                        out.append(_Sub(item.id).visit(copy.deepcopy(b_)))
+                self.changed = True
+                continue
+            out.append(st)
+        return out
 
     def _only_here(self, names, *nodes) -> bool:
         """the names occur nowhere in the function outside the given nodes - or, for a construct that is not inside a loop, are
@@ -105,14 +173,16 @@ class _FnRewriter:
         if getattr(self, "_loop_depth", 0) == 0 and getattr(self, "_fn", None) is not None and nodes:
             end = max(getattr(nd, "end_lineno", 0) or 0 for nd in nodes)
             later_reads = {n.id for n in ast.walk(self._fn) if isinstance(n, ast.Name) and isinstance(n.ctx, ast.Load)
-                           and n.lineno > end}
+                           and getattr(n, "lineno", 0) > end}
+            if any(not hasattr(n, "lineno") for n in ast.walk(self._fn) if isinstance(n, ast.Name)):
+                later_reads = None   # nodes synthesised by an earlier transform carry no position: use the strict rule
             nested = set()
             for f in ast.walk(self._fn):
                 if isinstance(f, (ast.FunctionDef, ast.Lambda)) and f is not self._fn:
                     own = {a_.arg for a_ in f.args.args + f.args.kwonlyargs + f.args.posonlyargs}
                     own |= {n.id for n in ast.walk(f) if isinstance(n, ast.Name) and isinstance(n.ctx, ast.Store)}
                     nested |= {n.id for n in ast.walk(f) if isinstance(n, ast.Name)} - own   # free names of closures
-            if not (set(names) & later_reads) and not (set(names) & nested):
+            if later_reads is not None and not (set(names) & later_reads) and not (set(names) & nested):
                 return True
         inside = {}
         for nd in nodes:
